@@ -183,13 +183,13 @@ func Transfer(from, to interop.Hash160, amount int, data any) bool {
 }
 
 // TransferX is a method for NeoFS balance to be transferred from one account to
-// another. It can be invoked by the account owner or by Alphabet nodes.
+// another. It can be invoked only by Alphabet nodes of the Inner Ring
+// (multisignature witness); the witness of the account owner is neither
+// required nor sufficient.
 //
 // It produces Transfer and TransferX notifications.
 //
 // TransferX method expands Transfer method by having extra details argument.
-// TransferX method also allows to transfer assets by Alphabet nodes of the
-// Inner Ring with multisignature.
 func TransferX(from, to interop.Hash160, amount int, details []byte) {
 	ctx := storage.GetContext()
 
